@@ -57,6 +57,7 @@ def build(env, sessions_per_cell, huge):
                 s.call("from_bytes", kind=kind, bytes=rnd.choice([g.rbytes(L), "@z:00:%d" % L, "@z:ff:%d" % L]), cls="len")
             for kind2, size2 in kinds[:3]:
                 valid = "$kR.pk" if kind2 != "sk" else "$kR.sk"
+                s.call("from_bytes", kind=kind2, bytes=valid, cls="valid")
                 s.call("from_bytes", kind=kind2, bytes=valid + "^app:" + g.raw(rnd.choice([1, 7, 33])).hex(), cls="valid_prefix_garbage")
                 s.call("from_bytes", kind=kind2, bytes=valid + "^trunc:%d" % rnd.randrange(0, size2), cls="valid_truncated")
                 s.call("from_bytes", kind=kind2, bytes=valid + "^flip:%d" % rnd.randrange(0, 8 * size2), cls="valid_bitflip")
@@ -136,6 +137,18 @@ def build(env, sessions_per_cell, huge):
         for L in range(0, 2300, 3):
             s.call("seal", ctx="S", api="inplace", pt="00", aad="@z:62:%d" % L, cls="sweep_aad")
             s.call("setup_r", mode=0, skr="$kR.sk", enc="$S.enc", info="@z:63:%d" % L, out="X", cls="sweep_info")
+    # primitives plugged in through the crate's public traits with sizes the built-in ones do not have (mock AEADs with
+    # nonces of 8..24 bytes, tags of 16..32 bytes, a 64-byte key, tag-first attached forms; a mock KEM with 96-byte sizes):
+    # the generic code around them must not assume the built-in sizes
+    for i, (kem, aead) in enumerate([(gen.KEMS[j % 4], a) for j, a in enumerate((0x7777, 0x7778, 0x7779, 0x777A, 0x777B, 0x777C))] + [(0x7E57, 1), (0x7E57, 3), (0x7E57, 0x777B)]):
+        for mode in gen.MODES:
+            s = cw.session(kem, (1, 3)[(i + mode) % 2], aead, sid="mock%d_%d" % (i, mode))
+            gen.add_pair(s, g, kem, mode, info=g.rbytes(9))
+            for api in ("alloc", "inplace"):
+                s.call("seal", ctx="S", api=api, pt=g.rbytes(rnd.choice([0, 1, 40])), aad=g.rbytes(3), out="m", cls="mock_primitives")
+                s.call("open", ctx="R", api=api, aad="-", cls="mock_primitives", **({"ct": "$m.full"} if api == "alloc" else {"ct": "$m.ct", "tag": "$m.tag"}))
+            s.call("open", ctx="R", api="alloc", ct=g.rbytes(rnd.choice([0, 7, 31, 33])), aad="-", cls="mock_primitives")
+            s.call("export", ctx="R", exctx="-", len=64, cls="mock_primitives")
     return cw
 
 
